@@ -16,7 +16,11 @@ pub struct C03;
 pub struct C07;
 
 /// 16-byte counter blocks whose low 64 bits carry within a few blocks
-const CARRY_BLOCKS: [&str; 8] = [
+pub const CARRY_BLOCKS: [&str; 11] = [
+    // carries confined to the low 32, 16 and 8 bits (a counter narrower than the block)
+    "0123456789abcdef01234567ffffffff",
+    "0123456789abcdef0123456789abffff",
+    "0123456789abcdef0123456789abcdff",
     "ffffffffffffffffffffffffffffffff",
     "fffffffffffffffffffffffffffffffe",
     "0000000000000000ffffffffffffffff",
@@ -98,6 +102,8 @@ impl Scenario for C03 {
             b.plan.iv = Some(IvSpec { site: "v3.local".into(), hex: b.rng.pick(&CARRY_BLOCKS).to_string() });
         }
         let fk = b.family_keys(f, false).unwrap();
+        // v3: a principal whose public key the verifiers import from compressed and uncompressed SEC1
+        let known = if f == 3 { b.p384_known() } else { None };
         let n = 3 + b.rng.usize_below(if tier == Tier::Thorough { 12 } else { 7 });
         for _ in 0..n {
             let purpose = if matches!(f, 1 | 3) && b.rng.chance(3, 4) { Purp::Local } else if b.rng.bool() { Purp::Local } else { Purp::Public };
@@ -152,7 +158,17 @@ impl Scenario for C03 {
                     b.push(Step::RefSeal { tok, family: f, key, purpose, payload, footer: foot, aad, nonce: Bytes::hex(&nonce), suffix: if sfx_c { "c".into() } else { String::new() } });
                 }
             }
-            let vkey = if purpose == Purp::Local { fk.local } else { fk.public };
+            let mut vkey = if purpose == Purp::Local { fk.local } else { fk.public };
+            // re-issue under the known signing key half of the time; verified under either import of its public key
+            if let (Some(k), Purp::Public, true) = (known, purpose, b.rng.bool()) {
+                for s in b.plan.steps.iter_mut().rev().take(1) {
+                    match s {
+                        Step::Seal { key, .. } | Step::RefSeal { key, .. } => *key = k.secret,
+                        _ => {}
+                    }
+                }
+                vkey = if b.rng.bool() { k.public_uncompressed } else { k.public };
+            }
             for node in 0..nodes.len() {
                 let pk = if sfx_c { crate::backend::PayloadKind::RawC } else { crate::backend::PayloadKind::Raw };
                 let fk = if json_foot { crate::backend::FootKind::Json } else { crate::backend::FootKind::Bytes };
@@ -163,7 +179,7 @@ impl Scenario for C03 {
     }
 }
 
-/// Runs 0..8: (version, purpose): every footer length and every assertion length 0..=L with a small
+/// Runs 0..8: (version, purpose): every footer length and every assertion length 0..=L (L = 720 quick, 4400 thorough; 70 / 330 for RSA and P-384 signatures) with a small
 /// message, and every message length with a fixed footer, each token cross-checked against the
 /// reference (length-prefix and buffer-size handling of the pre-authentication encoding).
 fn sweep_lengths(seed: u64, run: u64, tier: Tier) -> Plan {
@@ -181,9 +197,9 @@ fn sweep_lengths(seed: u64, run: u64, tier: Tier) -> Plan {
     let slow = purpose == Purp::Public && matches!(f, 1 | 3);
     let top = match (tier, slow) {
         (Tier::Quick, true) => 70,
-        (Tier::Quick, false) => 330,
+        (Tier::Quick, false) => 720,
         (Tier::Thorough, true) => 330,
-        (Tier::Thorough, false) => 1100,
+        (Tier::Thorough, false) => 4400,
     };
     let (key, vkey) = if purpose == Purp::Local { (fk.local, fk.local) } else { (fk.secret, fk.public) };
     let mut emit = |b: &mut Builder, mlen: usize, flen: usize, alen: usize| {
